@@ -570,6 +570,33 @@ def setitem(arr, key, val):
             return out
         arr.fn = fn
         return
+    if arr.ndim == 1 and len(key) == 1 and isinstance(key[0], slice) and key[0].step in (None, 1) \
+            and (key[0].start is None or (isinstance(key[0].start, (int, np.integer)) and key[0].start >= 0)) \
+            and (key[0].stop is None or (isinstance(key[0].stop, (int, np.integer)) and key[0].stop >= 0)):
+        # a[lo:hi] = v  (non-negative concrete bounds; the length may be symbolic): a scalar is broadcast, an array must have
+        # exactly the length of the slice (NumPy raises otherwise, hence a safety obligation)
+        n = arr.shape[0]
+        lo = 0 if key[0].start is None else int(key[0].start)
+        hi = n if key[0].stop is None else sym.ite(mk(lift(int(key[0].stop)) < lift(n)), int(key[0].stop), n) if isinstance(n, Sym) else min(int(key[0].stop), n)
+        if isinstance(val, SArr):
+            if val.ndim != 1:
+                raise OutsideSubset("slice store of a rank-%d array into a vector" % val.ndim)
+            c = sym.ctx()
+            want = sym.ite(mk(lift(hi) > lift(lo)), lift(hi) - lift(lo), 0) if (isinstance(hi, Sym) or isinstance(lo, Sym)) else max(0, hi - lo)
+            if not c.spec_mode:
+                if isinstance(want, Sym) or isinstance(val.shape[0], Sym):
+                    c.oblige_safe("slice-store-length", lift(val.shape[0]) == lift(want))
+                elif val.shape[0] != want and val.shape[0] != 1:
+                    raise ValueError("could not broadcast input array from shape (%d,) into shape (%d,)" % (val.shape[0], want))
+            vf = val.fn
+
+            def fn(i):
+                return sym.ite(mk(z3.And(lift(i) >= lift(lo), lift(i) < lift(hi))), vf(i - lo), old(i))
+        else:
+            def fn(i):
+                return sym.ite(mk(z3.And(lift(i) >= lift(lo), lift(i) < lift(hi))), val, old(i))
+        arr.fn = fn
+        return
     raise OutsideSubset("array store with key %r" % (key,))
 
 
@@ -722,12 +749,42 @@ def np_mean(a, axis=None):
     return SArr(s.shape, lambda j: f(j) / length, "real")
 
 
+def _np_extreme(a, axis, least):
+    """min / max of a vector: a fresh value m that bounds every element and is attained (m == a[k] for a fresh index k);
+    an empty vector raises ValueError as in NumPy.  Short concrete lengths are folded directly."""
+    if a.ndim != 1 or axis not in (None, 0, -1):
+        raise OutsideSubset("min/max reduction of a rank-%d symbolic array along axis %r" % (a.ndim, axis))
+    c = sym.ctx()
+    n = a.shape[0]
+    from .interp import PyRaise
+    if not isinstance(n, Sym):
+        if n == 0:
+            raise PyRaise(ValueError("zero-size array to reduction operation which has no identity"))
+        if n <= 4:
+            r = a.fn(0)
+            for i in range(1, n):
+                x = a.fn(i)
+                r = sym.ite((x < r) if least else (x > r), x, r)
+            return r
+    elif c.branch(lift(n) < 1):
+        raise PyRaise(ValueError("zero-size array to reduction operation which has no identity"))
+    sort = "int" if a.dtype == "int" else "real"
+    m = c.fresh("amin" if least else "amax", sort)
+    k = c.fresh("argext", "int")
+    j = z3.Int(c.fresh_name("j"))
+    el = lift(a.fn(mk(j)))
+    c.assume(z3.ForAll([j], z3.Implies(z3.And(j >= 0, j < lift(n)), (el >= m.e) if least else (el <= m.e))))
+    c.assume(z3.And(k.e >= 0, k.e < lift(n)))
+    c.assume(lift(a.fn(k)) == m.e)
+    return m
+
+
 def np_min(a, axis=None):
-    raise OutsideSubset("min reduction of a symbolic array")
+    return _np_extreme(a, axis, True)
 
 
 def np_max(a, axis=None):
-    raise OutsideSubset("max reduction of a symbolic array")
+    return _np_extreme(a, axis, False)
 
 
 @model(np.sum)
@@ -1548,6 +1605,24 @@ def _np_fill(value):
     return f
 
 
+def _np_fill_like(value):
+    def f(interp, a, dtype=None, **k):
+        if isinstance(a, SArr):
+            # (the element type follows the prototype; the engine does not model the truncation a store into an integer
+            # array performs -- symbolic prototypes are real arrays, integer ones are the business of the concrete passes)
+            return SArr(a.shape, lambda *i: value, a.dtype if dtype is None else "real")
+        if isinstance(a, np.ndarray) or isinstance(a, (list, tuple)):
+            return (np.zeros_like if value == 0 else np.ones_like)(a, dtype=dtype)
+        if is_sym(a):
+            return value
+        return (np.zeros_like if value == 0 else np.ones_like)(a, dtype=dtype)
+    return f
+
+
+_MODELS[np.zeros_like] = _np_fill_like(0)
+_MODELS[np.ones_like] = _np_fill_like(1)
+_MODELS[np.zeros_like].__name__ = "np.zeros_like"
+_MODELS[np.ones_like].__name__ = "np.ones_like"
 _MODELS[np.zeros] = _np_fill(0)
 _MODELS[np.ones] = _np_fill(1)
 _MODELS[np.zeros].__name__ = "np.zeros"
